@@ -555,9 +555,18 @@ class PipelineRig(object):
             uids = self.scn.cancels[self.cancelled]
             self.cancelled += 1
             cur['uids'] = list(uids)
-            msg = {'cmd': 'cancel_tasks', 'arg': {'uids': list(uids), 'tmgr': 'tmgr.0000'}, 'fwd': True}
-            for c in CTRL:
-                self.cmsgs[c].append(copy.deepcopy(msg))
+            # the real TaskManager.cancel_tasks (alternating with Task.cancel for single tasks):
+            # what it publishes on the control channel is what every component receives
+            sent = []
+            self.tm.publish = lambda topic, m: sent.append((topic, m))
+            if len(uids) == 1 and self.cancelled % 2 == 0 and uids[0] in self.tm._tasks:
+                self.tm._tasks[uids[0]].cancel()
+            else:
+                self.tm.cancel_tasks(list(uids))
+            for topic, msg in sent:
+                assert topic == rpc.CONTROL_PUBSUB, topic
+                for c in CTRL:
+                    self.cmsgs[c].append(copy.deepcopy(msg))
         elif kind == 'ctrl':
             msg = self.cmsgs[arg].pop(0)
             cur['uids'] = list(msg['arg']['uids'])
